@@ -114,16 +114,16 @@ def device_fields(dev) -> dict:
          "ip": text(dev.ip_address), "mac": text(dev.mac_address), "name": text(dev.name),
          "state": enums.state(dev.device_state)}
     if hasattr(dev, "power_consumption"):
-        g["watts"] = dev.power_consumption
+        g["watts"] = enums.integer(dev.power_consumption)
         g["amps10"] = int(round(dev.electric_current * 10))
     if hasattr(dev, "remaining_time"):
         g["remaining"] = text(dev.remaining_time)
         g["auto"] = text(dev.auto_shutdown)
     if hasattr(dev, "mode"):
-        g.update(mode=enums.mode(dev.mode), temp10=int(round(dev.temperature * 10)), target=dev.target_temperature,
+        g.update(mode=enums.mode(dev.mode), temp10=int(round(dev.temperature * 10)), target=enums.integer(dev.target_temperature),
                  fan=enums.fan(dev.fan_level), swing=enums.swing(dev.swing), remote=text(dev.remote_id))
     if hasattr(dev, "position"):
-        g.update(position=dev.position, direction=enums.direction(dev.direction))
+        g.update(position=enums.integer(dev.position), direction=enums.direction(dev.direction))
     return g
 
 
